@@ -16,13 +16,24 @@ Decides (from the syntax trees, nothing is run):
   R5  granted >= requested *shapes*: <cloud>_adjust_cores_for_memory_request returns max(cores, ceil(…memory…)); every non-None
       return of <cloud>_requested_to_actual_storage_bytes is >= the request; bytes -> GiB rounds up (math.ceil)
   R6  cloud dispatch agreement: in every `cloud == 'gcp'|'azure'` branch of the anchored modules only that cloud's helpers are used
+  R2 (provenance)  reaching definitions of the returned cores / memory / storage: after being derived from the request they are never lowered (min / subtraction /
+      division are violations) nor replaced by a value independent of the request unless every path to the replacement passes a test that bounds the request by
+      what the replacement covers.  Tests are split into atomic facts (predicate helpers inlined across modules), a bound `request <= B` is compared with the
+      replacement through RATIONAL INTERVALS of B over all values of the locals it uses (IvEval: an abstract domain, helpers followed; nothing is run):
+      B's lower bound above the replacement = violation, upper bound below = fine, otherwise undecided.  Same for the job-private placement, for what the
+      selectors and the front end do with the unpacked placement.
+  R7  memoised selection (see _check_memo)
+  R8  atomic replacement of the live configuration: typestate `emptied` of the containers the selectors read (self.name_pool_config, ...) along the CFG of refresh
+      and of every function a live container is passed to (may-alias by reaching definitions, callee summaries): X.clear() / delete-every-key loop / an empty
+      container published in self.<attr>, then a suspension point (await / async for / async with) before a synchronous refill = a submission handled in that
+      window selects against an empty or partly filled configuration and rejects a satisfiable request.
 Does not decide: the rounding arithmetic itself (floats, log2), the per-core memory tables.
 """
 from __future__ import annotations
 
 import ast
 from fractions import Fraction
-from typing import Dict, List, Optional, Sequence, Tuple
+from typing import Dict, List, Optional, Sequence, Set, Tuple
 
 from engines import absdom, guards, inline, pyfacts as pf
 from engines.common import AnalysisError, Ctx, short
@@ -32,10 +43,13 @@ META = dict(
     category='other',
     text='CFG must-pass-through with branch polarity for the pool filters and the fits-one-worker guard, a truth table of select_inst_coll, '
          'def-use plumbing checks (like-named argument/parameter, tuple role order) across the selection chain, and shape typing of the '
-         'monotone helpers (max / ceil).  Level `other`: the numeric clause (granted >= requested under float rounding) is not decided.',
+         'monotone helpers (max / ceil); reaching-definition provenance of the granted cores / memory / storage (never lowered, never replaced by a request-independent value '
+         'unless a test bounds the request by it - bounds compared as rational intervals); typestate of the live configuration containers across suspension points of refresh '
+         'and its loaders.  Level `other`: the numeric clause (granted >= requested under float rounding) is not decided.',
     note='Trusted: CPython ast; engines/pyfacts CFG; engines/guards. Not decided: float rounding in adjust_cores_for_packability and the cores<->memory conversions; '
          'contents of the machine-type tables.',
-    technique='static analysis: CFG dominance with edge polarity + sibling agreement + truth table + def-use plumbing',
+    technique='static analysis: CFG dominance with edge polarity + sibling agreement + truth table + def-use plumbing + reaching definitions with interval bounds + '
+              'typestate over the CFG with callee summaries',
     design_ref='DESIGN.md §3 C12',
 )
 
@@ -255,9 +269,662 @@ def _fits_fact(e: ast.AST, pol: bool, var: str) -> Optional[str]:
     return (rel[0] if pol else rel[1]) or 'other-polarity'
 
 
+# --------------------------------------------------------------------------------------
+# rational intervals (abstract domain): bounds of an arithmetic expression for ALL values of its free variables; pure helpers
+# (straight-line / if-else bodies) are followed across repository modules, module constants are looked up where they are defined
+# --------------------------------------------------------------------------------------
+
+INF = float('inf')
+
+
+class Iv:
+    __slots__ = ('lo', 'hi')
+
+    def __init__(self, lo, hi):
+        self.lo, self.hi = lo, hi
+
+    def top(self) -> bool:
+        return self.lo == -INF and self.hi == INF
+
+    def __repr__(self) -> str:
+        return f'[{self.lo},{self.hi}]'
+
+
+def _top() -> Iv:
+    return Iv(-INF, INF)
+
+
+def _hull(a: Optional[Iv], b: Optional[Iv]) -> Optional[Iv]:
+    if a is None:
+        return b
+    if b is None:
+        return a
+    return Iv(min(a.lo, b.lo), max(a.hi, b.hi))
+
+
+def _fin(x) -> bool:
+    return x not in (INF, -INF)
+
+
+def _mul(a, b):
+    if a == 0 or b == 0:
+        return Fraction(0)
+    return a * b
+
+
+def _mono(x, f):
+    """apply a monotone non-decreasing integer-valued rounding to an endpoint (infinite endpoints stay)"""
+    return x if not _fin(x) else Fraction(f(x))
+
+
+def _resolve_symbol(m: pf.Module, name: str, depth: int = 3) -> Optional[Tuple[pf.Module, ast.AST]]:
+    """(module, defining node) of the global `name` of m: a def, a module-level assignment, or the same in the repository module it is imported from."""
+    import os
+    from engines.common import repo_path
+    for st in m.tree.body:
+        if isinstance(st, (ast.FunctionDef, ast.AsyncFunctionDef)) and st.name == name:
+            return m, st
+        if isinstance(st, ast.Assign) and len(st.targets) == 1 and isinstance(st.targets[0], ast.Name) and st.targets[0].id == name:
+            return m, st.value
+        if isinstance(st, ast.AnnAssign) and isinstance(st.target, ast.Name) and st.target.id == name and st.value is not None:
+            return m, st.value
+    origin = m.imports().get(name)
+    if origin is None or depth <= 0:
+        return None
+    level = len(origin) - len(origin.lstrip('.'))
+    parts = origin.lstrip('.').split('.')
+    sym, modparts = parts[-1], parts[:-1]
+    if level == 0:
+        cands = [os.path.join(root, *modparts) for root in ('batch', 'hail/python', 'gear', 'web_common', '')]
+    else:
+        base = os.path.dirname(m.rel)
+        for _ in range(level - 1):
+            base = os.path.dirname(base)
+        cands = [os.path.join(base, *modparts)] if modparts else [base]
+    for c in cands:
+        for rel in (c + '.py', os.path.join(c, '__init__.py')):
+            if os.path.isfile(repo_path(rel)):
+                try:
+                    return _resolve_symbol(pf.load(rel), sym, depth - 1)
+                except AnalysisError:
+                    return None
+    return None
+
+
+class IvEval:
+    """Interval semantics of + - * / // ** max min int floor ceil round log2 over Fractions; anything else is TOP (no information)."""
+
+    def __init__(self, mods: Sequence[pf.Module], env: Dict[str, Iv], depth: int = 5):
+        self.mods, self.env, self.depth = list(mods), env, depth
+
+    def name(self, n: str) -> Iv:
+        if n in self.env:
+            return self.env[n]
+        for m in self.mods:
+            r = _resolve_symbol(m, n)
+            if r is not None and isinstance(r[1], ast.expr) and self.depth > 0:
+                return IvEval([r[0]], {}, self.depth - 1).ev(r[1])
+        return _top()
+
+    def ev(self, e: ast.AST) -> Iv:
+        try:
+            return self._ev(e)
+        except (ZeroDivisionError, OverflowError, ValueError, TypeError):
+            return _top()
+
+    def _ev(self, e: ast.AST) -> Iv:
+        import math
+        if isinstance(e, ast.Constant):
+            if isinstance(e.value, bool) or not isinstance(e.value, (int, float)):
+                return _top()
+            return Iv(Fraction(e.value), Fraction(e.value))
+        if isinstance(e, ast.Name):
+            return self.name(e.id)
+        if isinstance(e, ast.UnaryOp) and isinstance(e.op, ast.USub):
+            a = self._ev(e.operand)
+            return Iv(-a.hi, -a.lo)
+        if isinstance(e, ast.UnaryOp) and isinstance(e.op, ast.UAdd):
+            return self._ev(e.operand)
+        if isinstance(e, ast.BinOp):
+            a, b = self._ev(e.left), self._ev(e.right)
+            if isinstance(e.op, ast.Add):
+                return Iv(a.lo + b.lo, a.hi + b.hi)
+            if isinstance(e.op, ast.Sub):
+                return Iv(a.lo - b.hi, a.hi - b.lo)
+            if isinstance(e.op, ast.Mult):
+                vs = [_mul(x, y) for x in (a.lo, a.hi) for y in (b.lo, b.hi)]
+                return Iv(min(vs), max(vs))
+            if isinstance(e.op, (ast.Div, ast.FloorDiv)):
+                if b.lo != b.hi or not _fin(b.lo) or b.lo == 0:
+                    return _top()
+                vs = [x / b.lo if _fin(x) else (x if b.lo > 0 else -x) for x in (a.lo, a.hi)]
+                lo, hi = min(vs), max(vs)
+                if isinstance(e.op, ast.FloorDiv):
+                    lo, hi = _mono(lo, math.floor), _mono(hi, math.floor)
+                return Iv(lo, hi)
+            if isinstance(e.op, ast.Pow):
+                if a.lo == a.hi and _fin(a.lo) and a.lo >= 1:          # constant base >= 1: monotone in the exponent
+                    def p(x):
+                        if x == -INF:
+                            return Fraction(0)
+                        if x == INF:
+                            return INF
+                        return a.lo ** x if x.denominator == 1 else Fraction(float(a.lo) ** float(x))
+                    return Iv(p(b.lo), p(b.hi))
+                if b.lo == b.hi and _fin(b.lo) and b.lo.denominator == 1 and b.lo >= 1 and a.lo >= 0:   # x ** n, x >= 0
+                    return Iv(a.lo ** b.lo, a.hi ** b.lo if _fin(a.hi) else INF)
+                return _top()
+            return _top()
+        if isinstance(e, ast.IfExp):
+            h = _hull(self._ev(e.body), self._ev(e.orelse))
+            return h if h is not None else _top()
+        if isinstance(e, ast.Call):
+            f = pf.dotted(e.func) or ''
+            if e.keywords and f in ('max', 'min', 'int', 'float', 'round', 'math.ceil', 'math.floor', 'math.log2', 'ceil', 'floor'):
+                return _top()
+            args = [self._ev(a) for a in e.args] if not any(isinstance(a, ast.Starred) for a in e.args) else None
+            if args is None:
+                return _top()
+            if f == 'max' and len(args) >= 2:
+                return Iv(max(a.lo for a in args), max(a.hi for a in args))
+            if f == 'min' and len(args) >= 2:
+                return Iv(min(a.lo for a in args), min(a.hi for a in args))
+            if f in ('int', 'math.trunc') and len(args) == 1:
+                return Iv(_mono(args[0].lo, math.trunc), _mono(args[0].hi, math.trunc))
+            if f in ('math.floor', 'floor') and len(args) == 1:
+                return Iv(_mono(args[0].lo, math.floor), _mono(args[0].hi, math.floor))
+            if f in ('math.ceil', 'ceil') and len(args) == 1:
+                return Iv(_mono(args[0].lo, math.ceil), _mono(args[0].hi, math.ceil))
+            if f == 'round' and len(args) == 1:
+                return Iv(_mono(args[0].lo, math.floor), _mono(args[0].hi, math.ceil))
+            if f == 'float' and len(args) == 1:
+                return args[0]
+            if f in ('math.log2', 'log2') and len(args) == 1:
+                if args[0].lo <= 0:
+                    return _top()
+                lo = Fraction(math.log2(float(args[0].lo))) - Fraction(1, 10 ** 9)
+                hi = Fraction(math.log2(float(args[0].hi))) + Fraction(1, 10 ** 9) if _fin(args[0].hi) else INF
+                return Iv(lo, hi)
+            if isinstance(e.func, ast.Name) and self.depth > 0:
+                for m in self.mods:
+                    r = _resolve_symbol(m, e.func.id)
+                    if r is not None and isinstance(r[1], ast.FunctionDef):
+                        return self.call(r[0], r[1], e, args)
+            return _top()
+        return _top()
+
+    def call(self, m2: pf.Module, fn: ast.FunctionDef, call: ast.Call, args: List[Iv]) -> Iv:
+        ps = [a.arg for a in list(fn.args.posonlyargs) + list(fn.args.args)]
+        if fn.args.vararg or fn.args.kwarg or len(args) > len(ps):
+            return _top()
+        env: Dict[str, Iv] = {p: _top() for p in ps + [a.arg for a in fn.args.kwonlyargs]}
+        for p, a in zip(ps, args):
+            env[p] = a
+        for k in call.keywords:
+            if k.arg is None or k.arg not in env:
+                return _top()
+            env[k.arg] = self._ev(k.value)
+        sub = IvEval([m2], env, self.depth - 1)
+        ret, _ = sub.block(fn.body)
+        return ret if ret is not None else _top()
+
+    def block(self, stmts: Sequence[ast.stmt]) -> Tuple[Optional[Iv], bool]:
+        """(hull of the returned values, control may fall through); self.env is updated in place"""
+        ret: Optional[Iv] = None
+        for st in stmts:
+            if isinstance(st, ast.Expr) and isinstance(st.value, ast.Constant):
+                continue
+            if isinstance(st, (ast.Assert, ast.Pass)):
+                continue
+            if isinstance(st, ast.Assign) and len(st.targets) == 1 and isinstance(st.targets[0], ast.Name):
+                self.env[st.targets[0].id] = self.ev(st.value)
+            elif isinstance(st, ast.AnnAssign) and isinstance(st.target, ast.Name) and st.value is not None:
+                self.env[st.target.id] = self.ev(st.value)
+            elif isinstance(st, ast.Return):
+                return _hull(ret, self.ev(st.value) if st.value is not None else _top()), False
+            elif isinstance(st, ast.Raise):
+                return ret, False
+            elif isinstance(st, ast.If):
+                a = IvEval(self.mods, dict(self.env), self.depth)
+                b = IvEval(self.mods, dict(self.env), self.depth)
+                ra, fa = a.block(st.body)
+                rb, fb = b.block(st.orelse)
+                ret = _hull(ret, _hull(ra, rb))
+                if not fa and not fb:
+                    return ret, False
+                live = [x.env for x, f in ((a, fa), (b, fb)) if f]
+                keys = set().union(*[set(x) for x in live])
+                self.env = {k: (_hull(live[0].get(k), live[-1].get(k)) if all(k in x for x in live) else _top()) for k in keys}  # type: ignore[misc]
+            else:
+                return _top(), False          # loops, try, with, tuple assignment ...: no information
+        return ret, True
+
+
+# --------------------------------------------------------------------------------------
+# R2 (provenance): the quantities of a returned placement keep covering the request after they were derived from it
+# --------------------------------------------------------------------------------------
+
+_DEFERRED: List[str] = []      # shapes the provenance rules cannot decide: raised (exit 2) at the end of the run, after every other rule was evaluated
+
+
+def _reaching(cfg: pf.CFG, var: str, target: pf.Node) -> Tuple[List[pf.Node], bool]:
+    """(definitions of `var` that reach `target`, whether the function entry reaches it without any definition)"""
+    defs = guards.def_nodes(cfg, var)
+
+    def is_def(n: pf.Node) -> bool:
+        return any(n is d for d in defs)
+    out = [d for d in defs if cfg.path_avoiding(d, lambda n: n is target, is_def) is not None]
+    entry = not is_def(cfg.entry) and cfg.path_avoiding(cfg.entry, lambda n: n is target, is_def) is not None
+    return out, entry
+
+
+def _assigned_value(n: pf.Node, var: str) -> Optional[ast.expr]:
+    """the expression a definition node gives `var` (`var op= e` is read as `var op e`); None for unpacking / loop targets / with-as"""
+    a = n.ast
+    if n.kind == 'stmt' and isinstance(a, ast.Assign) and len(a.targets) == 1 and isinstance(a.targets[0], ast.Name) and a.targets[0].id == var:
+        return a.value
+    if n.kind == 'stmt' and isinstance(a, ast.AnnAssign) and isinstance(a.target, ast.Name) and a.target.id == var and a.value is not None:
+        return a.value
+    if n.kind == 'stmt' and isinstance(a, ast.AugAssign) and isinstance(a.target, ast.Name) and a.target.id == var:
+        return ast.copy_location(ast.BinOp(left=ast.Name(id=var, ctx=ast.Load()), op=a.op, right=a.value), a)
+    return None
+
+
+def _const_num(e: ast.AST) -> Optional[Fraction]:
+    iv = IvEval([], {}).ev(e)
+    return iv.lo if iv.lo == iv.hi and _fin(iv.lo) else None
+
+
+def _rel_prev(e: ast.AST, var: str) -> str:
+    """How the new value `e` of `var` relates to the value `var` held before: 'ge' (never smaller), 'lower' (a recognised shape that makes it smaller:
+    capped by min, reduced by a subtraction, divided, scaled by a factor < 1), 'indep' (does not use the previous value), 'unknown'."""
+    if not any(isinstance(n, ast.Name) and n.id == var for n in ast.walk(e)):
+        return 'indep'
+    if isinstance(e, ast.Name):
+        return 'ge'
+    if isinstance(e, ast.Call) and not e.keywords and not any(isinstance(a, ast.Starred) for a in e.args):
+        f = pf.dotted(e.func) or ''
+        rs = [_rel_prev(a, var) for a in e.args]
+        if f == 'max':
+            return 'ge' if 'ge' in rs else ('lower' if 'lower' in rs and 'unknown' not in rs else 'unknown')
+        if f == 'min':
+            if all(r == 'ge' for r in rs):
+                return 'ge'
+            return 'lower' if 'unknown' not in rs else 'unknown'
+        if f in ('math.ceil', 'ceil') and len(rs) == 1:
+            return rs[0]
+        if f in ('int', 'math.floor', 'floor', 'round') and len(rs) == 1:
+            return 'ge' if isinstance(e.args[0], ast.Name) else ('lower' if rs[0] == 'lower' else 'unknown')
+        return 'unknown'
+    if isinstance(e, ast.BinOp):
+        l, r = _rel_prev(e.left, var), _rel_prev(e.right, var)
+        kl, kr = _const_num(e.left), _const_num(e.right)
+        if isinstance(e.op, ast.Add):
+            for side, k in ((l, kr), (r, kl)):
+                if side in ('ge', 'lower') and k is not None:
+                    return side if k >= 0 or side == 'lower' else 'lower'
+            return 'unknown'
+        if isinstance(e.op, ast.Sub) and l in ('ge', 'lower') and r == 'indep':
+            return l if kr is not None and kr <= 0 else 'lower'
+        if isinstance(e.op, ast.Mult):
+            for side, k in ((l, kr), (r, kl)):
+                if side in ('ge', 'lower') and k is not None and k >= 0:
+                    return side if k >= 1 else 'lower'
+            return 'unknown'
+        if isinstance(e.op, (ast.Div, ast.FloorDiv, ast.RShift)) and l in ('ge', 'lower') and r == 'indep':
+            if isinstance(e.op, ast.RShift):
+                return 'lower' if kr is None or kr > 0 else l
+            if kr is not None and kr > 0:
+                return l if kr == 1 else 'lower'
+        return 'unknown'
+    if isinstance(e, ast.IfExp):
+        rs = {_rel_prev(e.body, var), _rel_prev(e.orelse, var)}
+        if rs == {'ge'}:
+            return 'ge'
+        return 'lower' if 'lower' in rs and rs <= {'ge', 'lower'} else 'unknown'
+    return 'unknown'
+
+
+def _other_operands(e: ast.AST, var: str) -> List[ast.AST]:
+    """the maximal non-constant sub-expressions of e that do not use `var` (what `var` is capped by / reduced by)"""
+    if not _uses(e, [var]):
+        return [] if isinstance(e, ast.Constant) else [e]
+    out: List[ast.AST] = []
+    for c in ast.iter_child_nodes(e):
+        if isinstance(e, ast.Call) and c is e.func:
+            continue
+        if isinstance(c, ast.expr):
+            out += _other_operands(c, var)
+    return out
+
+
+def _inline_pred(mods: List[pf.Module], e: ast.AST, depth: int = 3) -> Tuple[ast.AST, List[pf.Module]]:
+    """A call of a repository function whose body is straight-line assignments and one `return <expr>` is replaced by that expression with the arguments
+    substituted (names of the callee's module are looked up there: the module is added to the search list)."""
+    import copy
+    if depth <= 0 or not isinstance(e, ast.Call) or any(isinstance(a, ast.Starred) for a in e.args):
+        return e, mods
+    is_self = isinstance(e.func, ast.Attribute) and isinstance(e.func.value, ast.Name) and e.func.value.id == 'self'
+    if not (isinstance(e.func, ast.Name) or is_self):
+        return e, mods
+    for m in mods:
+        if is_self:
+            # a method of a class of this module (the receiver's class is not tracked: the name must be unambiguous)
+            cands = [f for c in m.classes() for f in c.body if isinstance(f, ast.FunctionDef) and f.name == e.func.attr  # type: ignore[union-attr]
+                     and not any(pf.dotted(d) in ('staticmethod', 'classmethod', 'property') for d in f.decorator_list)]
+            if len(cands) != 1:
+                continue
+            r = (m, cands[0])
+        else:
+            r = _resolve_symbol(m, e.func.id)  # type: ignore[union-attr]
+        if r is None or not isinstance(r[1], ast.FunctionDef):
+            continue
+        m2, fn = r
+        body = [s for s in fn.body if not (isinstance(s, ast.Expr) and isinstance(s.value, ast.Constant)) and not isinstance(s, ast.Assert)]
+        if not body or not isinstance(body[-1], ast.Return) or body[-1].value is None or fn.args.vararg or fn.args.kwarg:
+            return e, mods
+        if any(not (isinstance(s, (ast.Assign, ast.AnnAssign))) for s in body[:-1]):
+            return e, mods
+        ps = [a.arg for a in list(fn.args.posonlyargs) + list(fn.args.args)]
+        if is_self:
+            ps = ps[1:]
+        if len(e.args) > len(ps) or any(k.arg is None or k.arg not in ps for k in e.keywords):
+            return e, mods
+        bind: Dict[str, ast.AST] = dict(zip(ps, e.args))
+        bind.update({k.arg: k.value for k in e.keywords})  # type: ignore[misc]
+        if set(bind) != set(ps):
+            return e, mods
+        flat = _flat(fn, body[-1].value)
+
+        class Sub(ast.NodeTransformer):
+            def visit_Name(self, node):
+                return copy.deepcopy(bind[node.id]) if isinstance(node.ctx, ast.Load) and node.id in bind else node
+        out = Sub().visit(copy.deepcopy(flat))
+        return out, [m2] + [x for x in mods if x is not m2]
+    return e, mods
+
+
+def _atomic_facts(mods: List[pf.Module], e: ast.AST, pol: bool, depth: int = 3) -> List[Tuple[ast.AST, bool, List[pf.Module]]]:
+    """The atomic facts implied by `e` evaluating to `pol` (and / or / not are structure, predicate helpers are inlined).  A disjunction implies no atomic
+    fact on its own and is returned whole."""
+    if isinstance(e, ast.UnaryOp) and isinstance(e.op, ast.Not):
+        return _atomic_facts(mods, e.operand, not pol, depth)
+    if isinstance(e, ast.BoolOp) and ((isinstance(e.op, ast.And) and pol) or (isinstance(e.op, ast.Or) and not pol)):
+        return [f for v in e.values for f in _atomic_facts(mods, v, pol, depth)]
+    if isinstance(e, ast.Call) and depth > 0:
+        e2, mods2 = _inline_pred(mods, e)
+        if e2 is not e:
+            return _atomic_facts(mods2, e2, pol, depth - 1)
+    return [(e, pol, mods)]
+
+
+def _uses(e: ast.AST, names: Sequence[str]) -> bool:
+    return any(isinstance(n, ast.Name) and n.id in names for n in ast.walk(e))
+
+
+def _bound_fact(e: ast.AST, pol: bool, req: Sequence[str]) -> Optional[Tuple[str, Optional[ast.AST]]]:
+    """Reads the fact (e is pol) as a statement about one of the names in `req` (the request / the quantity granted for it):
+       ('ub', name, B)  name <= B is guaranteed (B does not use the request);  ('free', …) no upper bound on the request follows;  None = not understood."""
+    if not _uses(e, req):
+        return ('free', None)
+    if isinstance(e, ast.Name):
+        return ('ub0:' + e.id, None) if not pol else ('free', None)          # `not x`  ->  x == 0
+    if isinstance(e, ast.Compare) and len(e.ops) == 1:
+        a, b, op = e.left, e.comparators[0], type(e.ops[0])
+        if op in (ast.Is, ast.IsNot) and pf.nsrc(b) == 'None':
+            return ('free', None)
+        flip = {ast.Lt: ast.Gt, ast.LtE: ast.GtE, ast.Gt: ast.Lt, ast.GtE: ast.LtE, ast.Eq: ast.Eq, ast.NotEq: ast.NotEq}
+        neg = {ast.Lt: ast.GtE, ast.LtE: ast.Gt, ast.Gt: ast.LtE, ast.GtE: ast.Lt, ast.Eq: ast.NotEq, ast.NotEq: ast.Eq}
+        if op not in flip:
+            return None
+        if isinstance(b, ast.Name) and b.id in req and not _uses(a, req):
+            a, b, op = b, a, flip[op]
+        if not (isinstance(a, ast.Name) and a.id in req) or _uses(b, req):
+            return None
+        if not pol:
+            op = neg[op]
+        if op in (ast.LtE, ast.Lt, ast.Eq):
+            return ('ub:' + a.id, b)
+        return ('free', None)
+    return None
+
+
+def _provenance(ctx: Ctx, m: pf.Module, fn: pf.FuncDef, cfg: pf.CFG, qual: str, r: pf.Node, var: str, what: str, is_base, cons: str,
+                req_param: Optional[str] = None, unit: Optional[Fraction] = None) -> None:
+    """R2: every definition of the returned `var` that reaches the return is (a) its derivation from the request (`is_base`), or (b) a re-assignment that
+    never lowers it; a recognised lowering (min / subtraction / division / a constant that the request is not bounded by) is a violation, anything else is
+    left undecided."""
+    params = _params(fn)
+    seen: List[pf.Node] = []
+    work = [r]
+    bad = 0
+    n_base = 0
+    while work:
+        tgt = work.pop()
+        defs, entry = _reaching(cfg, var, tgt)
+        for d in defs:
+            if any(d is s for s in seen):
+                continue
+            seen.append(d)
+            v = _assigned_value(d, var)
+            if v is None:
+                _DEFERRED.append(f'{qual}: `{short(d.text(), 50)}` binds `{var}` in a way the provenance analysis does not follow')
+                continue
+            if is_base(v):
+                n_base += 1
+                if _uses(v, [var]):
+                    work.append(d)
+                continue
+            rel = _rel_prev(v, var)
+            stmt = short(d.text(), 70)
+            if rel == 'ge':
+                work.append(d)
+                continue
+            if isinstance(v, ast.IfExp) and req_param is not None:
+                # var = A if C else B: each arm is judged under its own condition
+                arms = [(v.body, True), (v.orelse, False)]
+                verdicts = []
+                for arm, pol in arms:
+                    ra = _rel_prev(arm, var)
+                    if ra == 'ge':
+                        verdicts.append(('ok', ''))
+                    elif ra == 'lower':
+                        verdicts.append(('bad', f'`{pf.nsrc(arm)}` lowers it'))
+                    elif ra == 'indep' and not _uses(pf.expand_locals(fn, arm), [req_param]):
+                        verdicts.append(_override_guarded(m, fn, cfg, d, arm, var, req_param, unit, extra=[(v.test, pol)]))
+                    else:
+                        verdicts.append(('unknown', f'`{short(pf.nsrc(arm), 40)}` is not classified'))
+                if any(k == 'bad' for k, _ in verdicts):
+                    bad += 1
+                    why = '; '.join(t for k, t in verdicts if k == 'bad')
+                    ctx.bad('R2', f'{cons}::{stmt}', f'`{stmt}` replaces the granted {what} on one arm by a value that does not cover the requested `{req_param}` ({why}): the request is '
+                            f'accepted and granted less {what} than it asked for', m.path, d.lineno)
+                elif any(k == 'unknown' for k, _ in verdicts):
+                    _DEFERRED.append(f'{qual}: `{stmt}`: ' + '; '.join(t for k, t in verdicts if k == 'unknown'))
+                else:
+                    work.append(d)
+                continue
+            if rel == 'lower':
+                # a cap that the function itself enforces by a test against the same bound is not a lowering the analysis can judge
+                others = [pf.nsrc(a) for a in _other_operands(v, var)]
+                tested = any(isinstance(t.ast, ast.Compare) and _uses(t.ast, [var] + ([req_param] if req_param else [])) and any(o and o in pf.nsrc(t.ast) for o in others)
+                             for t in cfg.nodes if t.kind == 'test' and isinstance(t.ast, ast.expr))
+                if tested:
+                    _DEFERRED.append(f'{qual}: `{stmt}` lowers `{var}` to a bound the function also tests (redundant cap or under-provisioning: not decided)')
+                    continue
+                bad += 1
+                ctx.bad('R2', f'{cons}::{stmt}', f'the granted {what} `{var}` is derived from the request and then LOWERED by `{stmt}` (line {d.lineno}) before the placement is returned: '
+                        f'a request that the pool accepts is granted less {what} than it asked for (the placement no longer covers the request)', m.path, d.lineno)
+                continue
+            if rel == 'indep' and req_param is not None and not _uses(pf.expand_locals(fn, v), [req_param]):
+                verdict, detail = _override_guarded(m, fn, cfg, d, v, var, req_param, unit)
+                if verdict == 'bad':
+                    bad += 1
+                    ctx.bad('R2', f'{cons}::{stmt}', f'on a path to the returned placement the granted {what} is replaced by `{pf.nsrc(v)}`, which does not depend on the requested '
+                            f'`{req_param}` ({detail}): the request is accepted and granted less {what} than it asked for', m.path, d.lineno)
+                elif verdict == 'ok':
+                    ctx.ok('R2', f'{cons}::{stmt}', detail)
+                else:
+                    _DEFERRED.append(f'{qual}: `{stmt}` replaces the granted {what} by a value independent of the request under a condition that is not understood ({detail})')
+                continue
+            _DEFERRED.append(f'{qual}: `{stmt}` re-defines the granted {what} `{var}` in a way the provenance analysis does not classify')
+        if entry and var not in params:
+            _DEFERRED.append(f'{qual}: `{var}` may be unbound at `{short(tgt.text(), 40)}`')
+    if bad == 0 and n_base:
+        ctx.ok('R2', f'{cons}::never lowered', {'definitions_reaching_the_return': len(seen)})
+
+
+def _local_iv(m: pf.Module, fn: pf.FuncDef, cfg: pf.CFG, name: str, at: pf.Node, nonneg: Sequence[str]) -> Iv:
+    """bounds of a local at a CFG node: hull of the definitions that reach it (their right-hand sides evaluated with every other local unknown)"""
+    defs, entry = _reaching(cfg, name, at)
+    out: Optional[Iv] = Iv(Fraction(0), INF) if entry and name in nonneg else (_top() if entry else None)
+    for d in defs:
+        v = _assigned_value(d, name)
+        out = _hull(out, IvEval([m], {p: Iv(Fraction(0), INF) for p in nonneg}).ev(v) if v is not None else _top())
+    return out if out is not None else _top()
+
+
+def _override_guarded(m: pf.Module, fn: pf.FuncDef, cfg: pf.CFG, d: pf.Node, v: ast.expr, var: str, req: str, unit: Optional[Fraction],
+                      extra: Sequence[Tuple[ast.expr, bool]] = ()) -> Tuple[str, str]:
+    """`var = v` with v independent of the request `req`: 'ok' if every path to it passes a test that bounds the request by (at most) v, 'bad' if some path
+    passes only tests that leave requests above v possible, 'unknown' otherwise.  `unit`: how many units of `req` one unit of `var` is (bytes per GiB)."""
+    params = _params(fn)[1:]
+    K = IvEval([m], {}).ev(v)
+    kinds: Dict[Tuple[int, str], str] = {}
+    notes: List[str] = []
+
+    def kind_of(n: pf.Node, lab: str, test: Optional[ast.expr] = None) -> str:
+        key = (n.id, lab)
+        if key in kinds and test is None:
+            return kinds[key]
+        res = 'free'
+        if test is not None or (n.kind == 'test' and isinstance(n.ast, ast.expr) and lab in ('T', 'F')):
+            e0 = pf.expand_locals(fn, test if test is not None else n.ast)
+            for e, pol, mods in _atomic_facts([m], e0, lab == 'T'):
+                bf = _bound_fact(e, pol, [req, var])
+                k = 'free'
+                if bf is None:
+                    k = 'unknown'
+                    notes.append(f'`{short(pf.nsrc(e), 60)}` is not understood')
+                elif bf[0].startswith('ub'):
+                    who = bf[0].split(':')[1]
+                    if bf[0].startswith('ub0'):
+                        B = Iv(Fraction(0), Fraction(0))
+                    else:
+                        env = {x: _local_iv(m, fn, cfg, x, n, params) for x in pf.names_in(bf[1]) if x in pf.assignments(fn)}  # type: ignore[arg-type]
+                        B = IvEval(mods, env).ev(bf[1])  # type: ignore[arg-type]
+                    scale = unit if who == req else Fraction(1)
+                    if scale is None or K.top():
+                        k = 'unknown'
+                    elif _fin(K.lo) and B.hi <= K.lo * scale:
+                        k = 'ok'
+                    elif who == req and _fin(K.hi) and B.lo > K.hi * scale:
+                        k = 'free'
+                        notes.append(f'the only test on the way, `{short(pf.nsrc(e), 90)}`{"" if pol else " being false"}, admits every `{req}` up to at least '
+                                     f'{B.lo} > {K.hi * scale} = what `{pf.nsrc(v)}` covers')
+                    else:
+                        k = 'unknown'
+                        notes.append(f'`{short(pf.nsrc(e), 60)}` bounds the request by a quantity in {B}, not comparable with {K}')
+                if k == 'ok' or (k == 'unknown' and res != 'ok'):
+                    res = k          # an edge that guarantees a sufficient bound protects, whatever else it says
+        if test is None:
+            kinds[key] = res
+        return res
+    # conditions attached to the definition itself (the test of a conditional expression)
+    ex = [kind_of(d, 'T' if pol else 'F', t) for t, pol in extra]
+    if 'ok' in ex:
+        return 'ok', f'its own condition bounds `{req}` by what `{pf.nsrc(v)}` covers'
+    if 'unknown' in ex:
+        return 'unknown', '; '.join(dict.fromkeys(notes)) or 'unclassified condition'
+
+    def search(block: Sequence[str]) -> Optional[List[pf.Node]]:
+        prev: Dict[int, Optional[pf.Node]] = {cfg.entry.id: None}
+        queue = [cfg.entry]
+        while queue:
+            n = queue.pop(0)
+            for nx, lab in n.succ:
+                if kind_of(n, lab) in block or nx.id in prev:
+                    continue
+                prev[nx.id] = n
+                if nx is d:
+                    path = [nx]
+                    cur: Optional[pf.Node] = n
+                    while cur is not None:
+                        path.append(cur)
+                        cur = prev[cur.id]
+                    return list(reversed(path))
+                queue.append(nx)
+        return None
+    p1 = search(('ok', 'unknown'))
+    if p1 is not None:
+        why = '; '.join(dict.fromkeys(x for x in notes if 'admits' in x)) or f'no test on the path {guards.fmt_path(p1)} bounds `{req}`'
+        return 'bad', why
+    p2 = search(('ok',))
+    if p2 is not None:
+        return 'unknown', '; '.join(dict.fromkeys(notes)) or 'unclassified test'
+    return 'ok', f'every path passes a test that bounds `{req}` by what `{pf.nsrc(v)}` covers'
+
+
+def _bytes_per_gib() -> Optional[Fraction]:
+    """how many bytes round_storage_bytes_to_gib counts as one GiB (R5 checks that it is 1024**3); None if its shape is not a scaling"""
+    try:
+        mu = pf.load(FU)
+        f = mu.func('round_storage_bytes_to_gib')
+        rets = [n for n in pf.walk_shallow(f) if isinstance(n, ast.Return) and n.value is not None]
+        ps = _params(f)
+        if len(rets) != 1 or len(ps) != 1:
+            return None
+        sc = _scale(f, _flat(f, rets[0].value), ps[0])
+        return 1 / sc if sc else None
+    except AnalysisError:
+        return None
+
+
+def _desugar_returns(fn: pf.FuncDef, want: Sequence[str]) -> pf.FuncDef:
+    """`return (a, b, <expr>)` is read as `v = <expr>; return (a, b, v)` where v is the like-role variable the expression uses (or the one another return
+    puts at that position): the same function, with every placement made of plain variables.  Returns fn itself when nothing needs rewriting."""
+    import copy
+    tuples = [n.value for n in pf.walk_shallow(fn) if isinstance(n, ast.Return) and isinstance(n.value, ast.Tuple) and len(n.value.elts) == len(want)]
+    if all(isinstance(e, ast.Name) for t in tuples for e in t.elts):
+        return fn
+    by_pos: Dict[int, str] = {}
+    for t in tuples:
+        for i, e in enumerate(t.elts):
+            if isinstance(e, ast.Name) and _role(e.id) == want[i]:
+                by_pos.setdefault(i, e.id)
+    new = copy.deepcopy(fn)
+
+    class T(ast.NodeTransformer):
+        def visit_FunctionDef(self, node):
+            return node if node is not new else self.generic_visit(node)
+
+        def visit_Return(self, node):
+            if not (isinstance(node.value, ast.Tuple) and len(node.value.elts) == len(want)) or all(isinstance(e, ast.Name) for e in node.value.elts):
+                return node
+            pre: List[ast.stmt] = []
+            elts: List[ast.expr] = []
+            for i, e in enumerate(node.value.elts):
+                if isinstance(e, ast.Name):
+                    elts.append(e)
+                    continue
+                names = [n.id for n in ast.walk(e) if isinstance(n, ast.Name) and _role(n.id) == want[i]]
+                v = by_pos.get(i) or (names[0] if names else f'granted_{want[i]}')
+                pre.append(ast.copy_location(ast.Assign(targets=[ast.Name(id=v, ctx=ast.Store())], value=e, lineno=node.lineno), node))
+                elts.append(ast.copy_location(ast.Name(id=v, ctx=ast.Load()), e))
+            # the temporaries are assigned together, after all right-hand sides were read: safe only if no rewritten element reads a variable assigned here
+            assigned = {p_.targets[0].id for p_ in pre}  # type: ignore[attr-defined]
+            for p_ in pre[1:]:
+                if pf.names_in(p_.value) & assigned:
+                    raise AnalysisError(f'{fn.name}: return `{short(pf.nsrc(node), 60)}` mixes expressions over the variables it returns (not a recognised shape)')
+            ret = ast.copy_location(ast.Return(value=ast.copy_location(ast.Tuple(elts=elts, ctx=ast.Load()), node.value)), node)
+            return [ast.fix_missing_locations(x) for x in pre] + [ast.fix_missing_locations(ret)]
+    T().visit(new)
+    return new
+
+
 def _check_convert(ctx: Ctx, m: pf.Module, facts: Facts) -> None:
     qual = 'PoolConfig.convert_requests_to_resources'
-    fn = m.func(qual)
+    fn = _desugar_returns(m.func(qual), WANT3)
     params = _params(fn)
     ctx.need(len(params) == 4, f'{qual}: parameters {params}')
     p_cores, p_mem, p_sto = params[1:]
@@ -297,18 +964,27 @@ def _check_convert(ctx: Ctx, m: pf.Module, facts: Facts) -> None:
             else:
                 msg = f'the placement is returned without `{v_cores} <= self.worker_cores * 1000` {guards.fmt_path(path)}: a job larger than any worker of the pool is accepted and can never be scheduled'
             ctx.bad('R2', cons0 + '::fits one worker', msg, m.path, r.lineno)
-        # storage
-        d = pf.single_def(fn, v_sto)
+        # storage: derived from the request by requested_storage_bytes_to_actual_storage_gib (exactly one such definition), never None, never lowered afterwards
         cons = cons0 + '::storage'
-        ctx.need(isinstance(d, ast.Call), f'{qual}: `{v_sto}` is not defined by a single call')
-        okf = pf.dotted(d.func) == 'requested_storage_bytes_to_actual_storage_gib'  # type: ignore[union-attr]
-        ctx.need(okf, f'{qual}: `{v_sto}` comes from `{short(pf.nsrc(d), 50)}`, not requested_storage_bytes_to_actual_storage_gib')
+
+        def is_sto_base(v: ast.AST) -> bool:
+            return isinstance(v, ast.Call) and pf.dotted(v.func) == 'requested_storage_bytes_to_actual_storage_gib'
+        sto_defs = [n for n in guards.def_nodes(cfg, v_sto) if _assigned_value(n, v_sto) is not None and is_sto_base(_assigned_value(n, v_sto))]  # type: ignore[arg-type]
+        ctx.need(len(sto_defs) == 1, f'{qual}: `{v_sto}` is not derived by exactly one call of requested_storage_bytes_to_actual_storage_gib ({len(sto_defs)} found)')
+        d = _assigned_value(sto_defs[0], v_sto)
         args = [pf.nsrc(a) for a in d.args]  # type: ignore[union-attr]
         ctx.check(len(args) >= 2 and args[0] == 'self.cloud' and args[1] == p_sto, 'R2', cons,
                   f'granted storage is computed from ({", ".join(args[:2])}), not (self.cloud, {p_sto}): the job gets storage sized for a different quantity', m.path, r.lineno)
-        path = guards.unguarded_path(cfg, facts, guards.def_nodes(cfg, v_sto), lambda n: n is r, lambda e, pol: guards.is_neq_fact(e, pol, v_sto, 'None'))
+        path = guards.unguarded_path(cfg, facts, sto_defs, lambda n: n is r, lambda e, pol: guards.is_neq_fact(e, pol, v_sto, 'None'))
         ctx.check(path is None, 'R2', cons + ' is not None', f'a placement can be returned while `{v_sto}` is None (request above the cloud maximum) {guards.fmt_path(path)}: '
                   'an unsatisfiable storage request is accepted instead of rejected', m.path, r.lineno)
+        # provenance: what is returned is what was derived from the request - no later definition lowers it
+        _provenance(ctx, m, fn, cfg, qual, r, v_sto, 'storage', is_sto_base, cons, req_param=p_sto, unit=_bytes_per_gib())
+        _provenance(ctx, m, fn, cfg, qual, r, v_cores, 'cores',
+                    lambda v: isinstance(v, ast.Call) and ((pf.dotted(v.func) or '').endswith('_adjust_cores_for_memory_request') or pf.dotted(v.func) == 'adjust_cores_for_packability'),
+                    cons0 + '::cores')
+        _provenance(ctx, m, fn, cfg, qual, r, v_mem, 'memory', lambda v: isinstance(v, ast.Call) and (pf.dotted(v.func) or '').endswith('_cores_mcpu_to_memory_bytes'),
+                    cons0 + '::memory')
         # cloud branches: memory raises cores before memory is derived
         branches = _cloud_branches(fn)
         ctx.need(len(branches) == 2, f'{qual}: expected an if/else over self.cloud with two branches, found {len(branches)}')
@@ -348,12 +1024,21 @@ def _check_convert(ctx: Ctx, m: pf.Module, facts: Facts) -> None:
         cons = f'{FI}::{qualj}::return {short(pf.nsrc(r.value), 60)}'
         ctx.check(roles == WANT4, 'R4', cons + '::order', f'the placement tuple is {roles}, the front end unpacks (name, cores, memory, storage)', m.path, r.lineno)
         if roles == WANT4 and isinstance(r.value.elts[3], ast.Name):  # type: ignore[union-attr]
-            d = pf.single_def(fj, r.value.elts[3].id)  # type: ignore[union-attr]
-            ctx.need(isinstance(d, ast.Call) and pf.dotted(d.func) == 'requested_storage_bytes_to_actual_storage_gib', f'{qualj}: storage is not from requested_storage_bytes_to_actual_storage_gib')
+            vj = r.value.elts[3].id  # type: ignore[union-attr]
+            cfgj = pf.cfg(fj)
+
+            def is_sto_base_j(v: ast.AST) -> bool:
+                return isinstance(v, ast.Call) and pf.dotted(v.func) == 'requested_storage_bytes_to_actual_storage_gib'
+            bj = [n for n in guards.def_nodes(cfgj, vj) if _assigned_value(n, vj) is not None and is_sto_base_j(_assigned_value(n, vj))]  # type: ignore[arg-type]
+            ctx.need(len(bj) == 1, f'{qualj}: storage is not from (one call of) requested_storage_bytes_to_actual_storage_gib')
+            d = _assigned_value(bj[0], vj)
             args = [pf.nsrc(a) for a in d.args]  # type: ignore[union-attr]
             sto_par = [p for p in pj if _role(p) == 'storage']
             ctx.check(len(args) >= 2 and args[0] == 'self.cloud' and sto_par and args[1] == sto_par[0], 'R2', cons + '::storage',
                       f'granted storage is computed from ({", ".join(args[:2])}), not (self.cloud, storage_bytes)', m.path, r.lineno)
+            rn = [n for n in cfgj.nodes if n.kind == 'return' and n.ast is r]
+            if rn and sto_par:
+                _provenance(ctx, m, fj, cfgj, qualj, rn[0], vj, 'storage', is_sto_base_j, cons + '::storage', req_param=sto_par[0], unit=_bytes_per_gib())
 
 
 def _cloud_of_test(t: ast.AST) -> Optional[str]:
@@ -456,12 +1141,41 @@ def _check_dispatch(ctx: Ctx, m: pf.Module, selectors: Dict[str, pf.FuncDef]) ->
                 roles = _roles(r.targets[0].elts)
                 ctx.check(roles == WANT3, 'R4', f'{FI}::InstanceCollectionConfigs.{name}::unpack {short(pf.nsrc(r.targets[0]), 70)}',
                           f'the pool placement (cores, memory, storage) is unpacked as {roles}', m.path, r.lineno)
+                _check_kept(ctx, m, fn2, f'InstanceCollectionConfigs.{name}', [e.id for e in r.targets[0].elts if isinstance(e, ast.Name)], r, FI)
                 continue
             if tup is None:
                 continue
             roles = _roles(tup.elts)
             ctx.check(roles == WANT4, 'R4', f'{FI}::InstanceCollectionConfigs.{name}::placement {short(pf.nsrc(tup), 70)}',
                       f'the placement tuple is {roles}, the front end unpacks (name, cores, memory, storage): quantities are stored under the wrong resource', m.path, r.lineno)
+
+
+def _check_kept(ctx: Ctx, m: pf.Module, fn: pf.FuncDef, qual: str, names: Sequence[str], unpack: ast.AST, file: str) -> None:
+    """R2: a quantity unpacked from a placement is passed on as granted - any other definition of the same local must not lower it."""
+    for nm in names:
+        if _role(nm) not in WANT3:
+            continue
+        others = [d for d in pf.assignments(fn).get(nm, []) if d is not unpack]
+        cons = f'{file}::{qual}::{nm} keeps the granted value'
+        bad = False
+        for d in others:
+            v = d
+            if isinstance(d, ast.AugAssign):
+                v = ast.copy_location(ast.BinOp(left=ast.Name(id=nm, ctx=ast.Load()), op=d.op, right=d.value), d)
+            if not isinstance(v, ast.expr):
+                _DEFERRED.append(f'{qual}: `{nm}` is also bound by `{short(pf.nsrc(d), 50)}` (not followed)')
+                continue
+            rel = _rel_prev(v, nm)
+            if rel == 'ge':
+                continue
+            if rel == 'lower':
+                bad = True
+                ctx.bad('R2', cons, f'`{nm} = {short(pf.nsrc(v), 70)}` (line {v.lineno}) lowers the {_role(nm)} the instance collection granted before it is recorded for the job: the job is '
+                        f'accepted with less {_role(nm)} than its request', m.path, v.lineno)
+            else:
+                _DEFERRED.append(f'{qual}: `{nm} = {short(pf.nsrc(v), 50)}` re-defines a granted quantity in a way the analysis does not classify')
+        if not bad and not others:
+            ctx.ok('R2', cons)
 
 
 def _check_front_end(ctx: Ctx, mi: pf.Module) -> None:
@@ -493,6 +1207,7 @@ def _check_front_end(ctx: Ctx, mi: pf.Module) -> None:
                       'is a server error (500) instead of a rejection', m.path, u.lineno)
             roles = _roles(u.ast.targets[0].elts)  # type: ignore[union-attr]
             ctx.check(roles == WANT4, 'R4', cons + '::order', f'the placement (name, cores, memory, storage) is unpacked as {roles}', m.path, u.lineno)
+            _check_kept(ctx, m, fn, qual, [e.id for e in u.ast.targets[0].elts if isinstance(e, ast.Name)], u.ast, FE)  # type: ignore[union-attr]
             # stored under the like-named resource key
             names = [e.id for e in u.ast.targets[0].elts if isinstance(e, ast.Name)]  # type: ignore[union-attr]
             for st in pf.walk_shallow(fn):
@@ -931,22 +1646,332 @@ def _check_memo(ctx: Ctx, mi: pf.Module) -> None:
     raise AnalysisError('select_inst_coll is memoised: the dispatch table rules are not evaluated on the memoised shape')
 
 
+# --------------------------------------------------------------------------------------
+# R8: the configuration the selectors read is replaced atomically
+# --------------------------------------------------------------------------------------
+
+_EMPTY_CALLS = ('dict', 'list', 'set', 'OrderedDict', 'collections.OrderedDict', 'defaultdict', 'collections.defaultdict')
+_FILL_METHODS = ('update', 'setdefault', 'append', 'extend', 'add', 'insert')
+
+
+def _is_empty_container(e: ast.AST) -> bool:
+    if isinstance(e, ast.Dict):
+        return not e.keys
+    if isinstance(e, (ast.List, ast.Set, ast.Tuple)):
+        return not e.elts
+    return isinstance(e, ast.Call) and pf.dotted(e.func) in _EMPTY_CALLS and not e.keywords and (not e.args or (pf.dotted(e.func) or '').endswith('defaultdict') and len(e.args) == 1
+                                                                                                   and not isinstance(e.args[0], (ast.Dict, ast.List)))
+
+
+class _AtomicScan:
+    """Typestate of the live configuration containers of one class (the objects bound to self.<attr>, read synchronously by the selectors) along the CFG of
+    every function that can touch them: `emptied` begins at X.clear() on a (may-)alias of a live container, or when an empty container is published in
+    self.<attr>; it ends at a bulk refill (X.update(...), a synchronous loop storing into X, publishing another object).  A suspension point reachable
+    while `emptied` lets the event loop run a request handler that selects against an empty / partly filled configuration."""
+
+    def __init__(self, m: pf.Module, cls_name: str, live: Set[str]):
+        self.m, self.cls_name, self.live = m, cls_name, live
+        self.cls = m.cls(cls_name)
+        self.methods = {f.name: f for f in self.cls.body if isinstance(f, (ast.FunctionDef, ast.AsyncFunctionDef))}
+        self.memo: Dict[Tuple[str, Tuple[str, ...], bool], Tuple[List[dict], bool]] = {}
+        self.stack: List[Tuple[str, Tuple[str, ...], bool]] = []
+
+    def callee(self, c: ast.Call, self_live: bool) -> Optional[Tuple[str, pf.FuncDef, bool]]:
+        """(qualified name, function, receives self) of a call that stays inside the module"""
+        f = c.func
+        if isinstance(f, ast.Attribute) and isinstance(f.value, ast.Name) and f.value.id in ('self', 'cls', self.cls_name) and f.attr in self.methods:
+            fn = self.methods[f.attr]
+            static = any(pf.dotted(d) == 'staticmethod' for d in fn.decorator_list)
+            klass = any(pf.dotted(d) == 'classmethod' for d in fn.decorator_list)
+            return f'{self.cls_name}.{f.attr}', fn, (not static and not klass and f.value.id == 'self' and self_live)
+        if isinstance(f, ast.Name):
+            for st in self.m.tree.body:
+                if isinstance(st, (ast.FunctionDef, ast.AsyncFunctionDef)) and st.name == f.id:
+                    return f.id, st, False
+        return None
+
+    def scan(self, qual: str, fn: pf.FuncDef, ent: Tuple[str, ...], self_live: bool) -> Tuple[List[dict], bool]:
+        """(violations found in fn and its callees, fn may return with a live container still emptied)"""
+        key = (qual, ent, self_live)
+        if key in self.memo:
+            return self.memo[key]
+        if key in self.stack or len(self.stack) > 4:
+            return [], False
+        self.stack.append(key)
+        try:
+            res = self._scan(qual, fn, ent, self_live)
+        finally:
+            self.stack.pop()
+        self.memo[key] = res
+        return res
+
+    def _scan(self, qual: str, fn: pf.FuncDef, ent: Tuple[str, ...], self_live: bool) -> Tuple[List[dict], bool]:
+        cfg = pf.cfg(fn)
+        static = any(pf.dotted(d) in ('staticmethod', 'classmethod') for d in fn.decorator_list)
+        params = [a.arg for a in list(fn.args.posonlyargs) + list(fn.args.args) + list(fn.args.kwonlyargs)]
+        publishes: List[Tuple[pf.Node, str, ast.AST]] = []     # (node, attr, value) of `self.attr = value`
+        if self_live:
+            for n in cfg.nodes:
+                if n.kind == 'stmt' and isinstance(n.ast, (ast.Assign, ast.AnnAssign)) and getattr(n.ast, 'value', None) is not None:
+                    tgs = n.ast.targets if isinstance(n.ast, ast.Assign) else [n.ast.target]
+                    for t in tgs:
+                        if isinstance(t, ast.Attribute) and isinstance(t.value, ast.Name) and t.value.id == 'self' and t.attr in self.live:
+                            publishes.append((n, t.attr, n.ast.value))
+                        elif isinstance(t, (ast.Tuple, ast.List)):
+                            for i, el in enumerate(t.elts):
+                                if isinstance(el, ast.Attribute) and isinstance(el.value, ast.Name) and el.value.id == 'self' and el.attr in self.live:
+                                    v = n.ast.value
+                                    publishes.append((n, el.attr, v.elts[i] if isinstance(v, (ast.Tuple, ast.List)) and len(v.elts) == len(t.elts) else v))
+
+        def live_expr(e: ast.AST, at: pf.Node, depth: int = 3) -> Optional[str]:
+            """what live container `e` may denote at CFG node `at` (None: none)"""
+            if self_live and isinstance(e, ast.Attribute) and isinstance(e.value, ast.Name) and e.value.id == 'self' and e.attr in self.live:
+                return f'self.{e.attr}'
+            if isinstance(e, ast.Name) and depth > 0:
+                defs, entry = _reaching(cfg, e.id, at)
+                if entry and e.id in ent:
+                    return f'parameter `{e.id}` (bound to a live container by the caller)'
+                for d in defs:
+                    v = _assigned_value(d, e.id)
+                    if v is not None and d is not at:
+                        r = live_expr(v, d, depth - 1)
+                        if r is not None:
+                            return r
+                # published earlier: `self.attr = e` reaches here without e being re-bound
+                redefs = guards.def_nodes(cfg, e.id)
+                for pn, attr, v in publishes:
+                    if isinstance(v, ast.Name) and v.id == e.id and (pn is at or cfg.path_avoiding(pn, lambda x: x is at, lambda x: any(x is r for r in redefs)) is not None):
+                        return f'self.{attr} (published as `{e.id}`)'
+            return None
+
+        def fills(n: pf.Node) -> bool:
+            """n completes / refills a live container in one synchronous step"""
+            if n.ast is None:
+                return False
+            for c in pf.node_calls(n):
+                if isinstance(c.func, ast.Attribute) and c.func.attr == 'update' and live_expr(c.func.value, n) is not None:
+                    return True
+            if n.kind == 'stmt' and isinstance(n.ast, ast.AugAssign) and isinstance(n.ast.op, ast.BitOr) and live_expr(n.ast.target, n) is not None:
+                return True
+            if n.kind == 'loop' and isinstance(n.ast, ast.For):
+                for x in ast.walk(n.ast):
+                    if isinstance(x, ast.Subscript) and isinstance(x.ctx, ast.Store) and live_expr(x.value, n) is not None:
+                        return True
+                    if isinstance(x, ast.Call) and isinstance(x.func, ast.Attribute) and x.func.attr in _FILL_METHODS and live_expr(x.func.value, n) is not None:
+                        return True
+            for pn, attr, v in publishes:
+                if pn is n and not self._publishes_empty(cfg, n, v):
+                    return True
+            return False
+
+        events: List[Tuple[pf.Node, str]] = []
+        viol: List[dict] = []
+        for n in cfg.nodes:
+            if n.ast is None:
+                continue
+            for c in pf.node_calls(n):
+                if isinstance(c.func, ast.Attribute) and c.func.attr == 'clear' and not c.args:
+                    what = live_expr(c.func.value, n)
+                    if what is not None:
+                        events.append((n, f'`{pf.nsrc(c)}` empties {what}'))
+                tgt = self.callee(c, self_live)
+                if tgt is not None:
+                    cq, cfn, recv_self = tgt
+                    cps = [a.arg for a in list(cfn.args.posonlyargs) + list(cfn.args.args)]
+                    if cps and cps[0] in ('self', 'cls') and not any(pf.dotted(d) == 'staticmethod' for d in cfn.decorator_list):
+                        cps = cps[1:]
+                    bound = [cps[i] for i, a in enumerate(c.args) if i < len(cps) and not isinstance(a, ast.Starred) and live_expr(a, n) is not None]
+                    bound += [k.arg for k in c.keywords if k.arg is not None and live_expr(k.value, n) is not None]
+                    if bound or recv_self:
+                        v2, leaves = self.scan(cq, cfn, tuple(sorted(bound)), recv_self)
+                        viol += v2
+                        if leaves:
+                            events.append((n, f'`{short(pf.nsrc(c), 60)}` returns with a live container emptied'))
+            for pn, attr, v in publishes:
+                if pn is n and self._publishes_empty(cfg, n, v):
+                    events.append((n, f'`{short(n.text(), 60)}` publishes an empty container as self.{attr}'))
+            if n.kind == 'loop' and isinstance(n.ast, ast.For):
+                # `for k in list(X): del X[k]` (unconditional removal of every key) empties X like X.clear()
+                for st in n.ast.body:
+                    tgt = None
+                    if isinstance(st, ast.Delete) and len(st.targets) == 1 and isinstance(st.targets[0], ast.Subscript):
+                        tgt = st.targets[0].value
+                    elif isinstance(st, ast.Expr) and isinstance(st.value, ast.Call) and isinstance(st.value.func, ast.Attribute) and st.value.func.attr in ('pop', 'popitem'):
+                        tgt = st.value.func.value
+                    what = live_expr(tgt, n) if tgt is not None else None
+                    if what is not None and pf.nsrc(tgt) in pf.nsrc(n.ast.iter):
+                        events.append((n, f'the loop `for {pf.nsrc(n.ast.target)} in {short(pf.nsrc(n.ast.iter), 40)}` removes every entry of {what}'))
+        leaves_empty = False
+        for e_node, what in events:
+            p = cfg.path_avoiding(e_node, lambda x: x is not e_node and pf.node_has_await(x), fills)
+            if p is not None:
+                s_node = p[-1]
+                viol.append(dict(qual=qual, line=e_node.lineno, stmt=short(e_node.text(), 70), what=what, susp=short(s_node.text(), 60), susp_line=s_node.lineno,
+                                 via=guards.fmt_path(p)))
+            if cfg.path_avoiding(e_node, lambda x: x is cfg.exit, fills) is not None:
+                leaves_empty = True
+        del static, params
+        return viol, leaves_empty
+
+    @staticmethod
+    def _publishes_empty(cfg: pf.CFG, n: pf.Node, v: ast.AST) -> bool:
+        """the value stored in self.<attr> at n is a container that is still empty: an empty literal, or a local whose only reaching definition is one and that
+        no statement has filled on the way"""
+        if _is_empty_container(v):
+            return True
+        if isinstance(v, ast.Name):
+            defs, entry = _reaching(cfg, v.id, n)
+            if entry or len(defs) != 1:
+                return False
+            dv = _assigned_value(defs[0], v.id)
+            if dv is None or not _is_empty_container(dv):
+                return False
+
+            def stores(x: pf.Node) -> bool:
+                if x.ast is None:
+                    return False
+                for y in pf.node_exprs(x):
+                    for z in ast.walk(y):
+                        if isinstance(z, ast.Subscript) and isinstance(z.ctx, ast.Store) and isinstance(z.value, ast.Name) and z.value.id == v.id:
+                            return True
+                        if isinstance(z, ast.Call) and isinstance(z.func, ast.Attribute) and z.func.attr in _FILL_METHODS and isinstance(z.func.value, ast.Name) and z.func.value.id == v.id:
+                            return True
+                return False
+            # filled before being published?  (some store lies on a path definition -> publication)
+            for x in cfg.nodes:
+                if stores(x) and cfg.path_avoiding(defs[0], lambda y: y is x, lambda y: False) is not None and cfg.path_avoiding(x, lambda y: y is n, lambda y: False) is not None:
+                    return False
+            return True
+        return False
+
+
+_R8_CONTROL = '''
+class InstanceCollectionConfigs:
+    def __init__(self, name_pool_config):
+        self.name_pool_config = name_pool_config
+
+    def select(self):
+        for pool in self.name_pool_config.values():
+            pass
+
+    @staticmethod
+    async def load(db, into):
+        into.clear()
+        async for r in db.rows():
+            into[r.name] = r
+
+    async def refresh(self, db):
+        await InstanceCollectionConfigs.load(db, self.name_pool_config)
+'''
+
+
+def _live_config_attrs(m: pf.Module, cls_name: str) -> Set[str]:
+    """attributes of the class that __init__ fills from its parameters and that a select* method reads"""
+    cls = m.cls(cls_name)
+    meths = {f.name: f for f in cls.body if isinstance(f, (ast.FunctionDef, ast.AsyncFunctionDef))}
+    init = meths.get('__init__')
+    if init is None:
+        return set()
+    ps = set(_params(init)[1:])
+    attrs = set()
+    for st in pf.walk_shallow(init):
+        if isinstance(st, (ast.Assign, ast.AnnAssign)) and getattr(st, 'value', None) is not None:
+            for t in (st.targets if isinstance(st, ast.Assign) else [st.target]):
+                if isinstance(t, ast.Attribute) and isinstance(t.value, ast.Name) and t.value.id == 'self' and pf.names_in(st.value) & ps:
+                    attrs.add(t.attr)
+    read = {n.attr for name, f in meths.items() if name.startswith('select') for n in ast.walk(f)
+            if isinstance(n, ast.Attribute) and isinstance(n.value, ast.Name) and n.value.id == 'self' and isinstance(n.ctx, ast.Load)}
+    # helpers of the selectors (generators, filters) count as well
+    for name, f in meths.items():
+        if any(isinstance(c.func, ast.Attribute) and c.func.attr == name for s, g in meths.items() if s.startswith('select') for c in pf.calls_in(g)):
+            read |= {n.attr for n in ast.walk(f) if isinstance(n, ast.Attribute) and isinstance(n.value, ast.Name) and n.value.id == 'self' and isinstance(n.ctx, ast.Load)}
+    return attrs & read
+
+
+def _check_atomic_refresh(ctx: Ctx, mi: pf.Module) -> None:
+    """R8: select_inst_coll runs synchronously inside request handlers while refresh() runs as a background task, so whatever refresh (and the loaders it
+    hands self.<config> to) does to the live containers must be complete before its next suspension point."""
+    # positive control: the detector recognises the emptied-then-suspended shape on a synthetic class
+    ctl = pf.Module('<control>', '<control>', _R8_CONTROL, ast.parse(_R8_CONTROL))
+    sc = _AtomicScan(ctl, 'InstanceCollectionConfigs', _live_config_attrs(ctl, 'InstanceCollectionConfigs'))
+    v, _ = sc.scan('InstanceCollectionConfigs.refresh', sc.methods['refresh'], (), True)
+    ctx.need(len(v) == 1 and 'clear' in v[0]['what'], 'R8 positive control: the emptied-before-suspension detector does not recognise its own control snippet')
+    ctx.ok('R8', 'control::live container emptied before a suspension point is recognised', nontrivial=False)
+    cls_name = 'InstanceCollectionConfigs'
+    live = _live_config_attrs(mi, cls_name)
+    ctx.need('name_pool_config' in live, f'{cls_name}: the selectors do not read self.name_pool_config set by __init__ (anchor changed); found {sorted(live)}')
+    scan = _AtomicScan(mi, cls_name, live)
+    seen: Set[Tuple[str, int]] = set()
+
+    def self_live_attr(e: ast.AST) -> bool:
+        return isinstance(e, ast.Attribute) and isinstance(e.value, ast.Name) and e.value.id == 'self' and e.attr in live
+    for name, fn in scan.methods.items():
+        if name == '__init__' or any(pf.dotted(d) in ('staticmethod', 'classmethod') for d in fn.decorator_list):
+            continue
+        qual = f'{cls_name}.{name}'
+        viol, _ = scan.scan(qual, fn, (), True)
+        for x in viol:
+            if (x['qual'], x['line']) in seen:
+                continue
+            seen.add((x['qual'], x['line']))
+            ctx.bad('R8', f"{FI}::{x['qual']}::{x['stmt']}", f"{x['what']} (reached from {qual}) and the function suspends at `{x['susp']}` (line {x['susp_line']}) before the container is "
+                    f"refilled {x['via']}: the event loop can run a job submission in that window, whose synchronous select_inst_coll iterates an empty / partly filled configuration - "
+                    f"the request is rejected as unsatisfiable (or sent to a dearer pool) although a configured pool satisfies it. Build the new container privately and publish it with one "
+                    f"assignment (or clear + update without a suspension point in between)", mi.path, x['line'])
+        # an instance of the rule: a method that replaces / hands out / updates a live container
+        relevant = any(self_live_attr(n) and isinstance(n.ctx, ast.Store) for n in ast.walk(fn)) \
+            or any(isinstance(c.func, ast.Attribute) and self_live_attr(c.func.value) and c.func.attr in ('clear', 'update', 'pop', 'popitem', 'setdefault') for c in pf.calls_in(fn)) \
+            or any(scan.callee(c, True) is not None and any(self_live_attr(a) for a in list(c.args) + [k.value for k in c.keywords]) for c in pf.calls_in(fn))
+        if relevant and not viol:
+            ctx.ok('R8', f'{FI}::{qual}::live configuration is replaced atomically', {'live': sorted(live)})
+    # code outside the class that reaches into the live containers (obj.name_pool_config.clear() ... await): the front end always, the whole service in the thorough tier
+    if True:
+        n_ext = 0
+        for rel in (pf.walk_py(['batch/batch']) if ctx.tier == 'thorough' else [FE]):
+            if rel == FI:
+                continue
+            try:
+                mx = pf.load(rel)
+            except AnalysisError:
+                continue
+            if not any(a in mx.src for a in live):
+                continue
+            for q, f2 in mx.functions():
+                hits = [c for c in pf.calls_in(f2) if isinstance(c.func, ast.Attribute) and c.func.attr == 'clear' and isinstance(c.func.value, ast.Attribute) and c.func.value.attr in live
+                        and c.func.value.attr in ('name_pool_config', 'jpim_config', 'resource_rates')]
+                if not hits:
+                    continue
+                n_ext += 1
+                g = pf.cfg(f2)
+                for c in hits:
+                    for e_node in g.node_of(c):
+                        pth = g.path_avoiding(e_node, lambda x: x is not e_node and pf.node_has_await(x),
+                                              lambda x: any(isinstance(k.func, ast.Attribute) and k.func.attr == 'update' for k in pf.node_calls(x)))
+                        ctx.check(pth is None, 'R8', f'{rel}::{q}::{short(pf.nsrc(c), 60)}', f'`{pf.nsrc(c)}` empties a live configuration container and the function suspends before refilling it '
+                                  f'{guards.fmt_path(pth)}: a submission handled meanwhile selects against an empty configuration', mx.path, c.lineno)
+        ctx.unit('external_config_mutators', n_ext)
+
+
 def run(ctx: Ctx) -> None:
     ctx.explanation = ('Per pool-selection method: CFG must-pass-through (with branch polarity) of the cloud/preemptible/label/worker-type filters before a pool is used; '
                        'fits-one-worker guard and storage provenance of every returned placement; truth table of select_inst_coll; like-named argument plumbing and '
                        'tuple role order along front end -> select_inst_coll -> selector -> convert; max/ceil shape typing of the granted>=requested helpers; per-cloud dispatch agreement.')
     ctx.rule('R1', 'pool selectors use a pool only after pool.cloud/preemptible/label (and worker_type) equal the request; job-private checks the cloud', 8)
-    ctx.rule('R2', 'every pool placement is guarded by cores_mcpu <= worker_cores*1000, has storage from the request (not None), memory raises cores before memory is derived', 10)
+    ctx.rule('R2', 'every pool placement is guarded by cores_mcpu <= worker_cores*1000, has storage from the request (not None), memory raises cores before memory is derived; no later definition lowers the granted cores / memory / storage (pool, job-private, selectors, front end)', 23)
     ctx.rule('R3', 'rejection only after all pools; select_inst_coll dispatch table; front end maps None to HTTP 400 before use', 11)
     ctx.rule('R4', 'placement tuples are (name, cores, memory, storage) at every writer/reader; arguments go to like-named parameters along the chain', 17)
     ctx.rule('R5', 'granted >= requested shapes: max(cores, ceil(memory/per-core)), storage returns >= request, bytes->GiB rounds up', 15)
     ctx.rule('R6', 'in every cloud == X branch only X helpers are used (anchored modules)', 26)
     ctx.rule('R7', 'selection is computed against the configs in force: no memo, or a memo keyed by all parameters and emptied atomically after the configs are replaced', 1)
+    ctx.rule('R8', 'the live configuration containers the selectors read (self.name_pool_config ...) are never emptied / published empty with a suspension point before they are '
+             'complete again (refresh and the loaders it passes them to)', 2)
     ctx.assume('float arithmetic in adjust_cores_for_packability / cores<->memory conversions is not decided (numeric clause)')
     ctx.assume("the job validator admits no 'cloud' key, so the job's cloud equals the deployment CLOUD")
     mi = pf.load(FI)
     ctx.unit('files', 5)
+    del _DEFERRED[:]
     _check_memo(ctx, mi)
+    _check_atomic_refresh(ctx, mi)
     facts = Facts()
     selectors = _check_selectors(ctx, mi, facts)
     _check_convert(ctx, mi, facts)
@@ -954,3 +1979,5 @@ def run(ctx: Ctx) -> None:
     _check_front_end(ctx, mi)
     _check_shapes(ctx)
     _check_dispatch_agreement(ctx, [FI, FU, 'batch/batch/cloud/utils.py', FE])
+    if _DEFERRED:
+        raise AnalysisError('; '.join(dict.fromkeys(_DEFERRED)))
